@@ -815,6 +815,7 @@ const (
 	vBig = 1 << 24
 	// BigVal of CodecDecode.tla: the claim value a data token carries for the 2^24 class
 	vBigAbstract = 100000
+	vFatN        = 70000 // CodecDecode!FatN
 	vHuge        = 1<<32 - 1
 	// allocation bound of the property as checked here: alloc <= vAllocC*len(input) + vAllocK
 	vAllocC = 64
@@ -908,8 +909,24 @@ func vConcretise(in vDIn, conc *vConc, rnd *rand.Rand, huge uint32) []byte {
 	var b []byte
 	u32 := func(v uint32) { b = binary.LittleEndian.AppendUint32(b, v) }
 	fill := func(n int) {
+		if n > 4096 { // "fat" data: random head, patterned rest
+			for j := 0; j < 64; j++ {
+				b = append(b, byte(rnd.Intn(256)))
+			}
+			for j := 64; j < n; j++ {
+				b = append(b, byte(j))
+			}
+			return
+		}
 		for j := 0; j < n; j++ {
 			b = append(b, byte(rnd.Intn(256)))
+		}
+	}
+	for _, t := range in.Toks {
+		if t.T == "data" && t.N == vFatN && huge > vBig {
+			// fat inputs carry real data behind the claim: a decoder that trusts the claim
+			// after a first chunk would allocate it in full; 2^24 units is enough to see that
+			huge = vBig
 		}
 	}
 	nst := len(vDStates(conc, in.Scen))
